@@ -174,12 +174,12 @@ def row_payload(order, x, nvars, floor=2.0 ** -23):
 
 
 # ----------------------------------------------------------------------------- generators
-def rand_leaf(rs, v, kinds):
+def rand_leaf(rs, v, kinds, ncat=None):
     k = kinds[rs.randint(len(kinds))]
     if k == 'bern':
         return Bernoulli(int(v), float(rs.uniform(0.05, 0.95)))
     if k == 'cat':
-        n = rs.randint(2, 5)
+        n = rs.randint(2, 5) if ncat is None else ncat
         p = rs.dirichlet(np.ones(n))
         return Categorical(int(v), list(range(n)), p.tolist())
     if k == 'gauss':
@@ -210,7 +210,7 @@ def rand_clt(rs, scope, root_rows_equal=True):
     return BinaryCLT([int(s) for s in scope], root=int(scope[root]), tree=tree, params=np.log(params).tolist())
 
 
-def rand_spn(rs, scope, depth, kinds=('bern',), share=0.3, pool=None, clt=False, var_kind=None):
+def rand_spn(rs, scope, depth, kinds=('bern',), share=0.3, pool=None, clt=False, var_kind=None, same_categories=None):
     """random valid circuit over `scope`; `var_kind` fixes one leaf family per variable so that
     every variable has one domain"""
     if pool is None:
@@ -219,7 +219,10 @@ def rand_spn(rs, scope, depth, kinds=('bern',), share=0.3, pool=None, clt=False,
         var_kind = {}
     def leaf(v):
         k = var_kind.setdefault(v, kinds[rs.randint(len(kinds))])
-        return rand_leaf(rs, v, (k,))
+        nc = None
+        if same_categories is not None:
+            nc = same_categories.setdefault(v, int(rs.randint(2, 5)))
+        return rand_leaf(rs, v, (k,), nc)
     key = tuple(sorted(scope))
     if pool.get(key) and rs.rand() < share:
         return pool[key][rs.randint(len(pool[key]))]
@@ -232,7 +235,7 @@ def rand_spn(rs, scope, depth, kinds=('bern',), share=0.3, pool=None, clt=False,
         node = Product(children=[leaf(v) for v in scope]) if len(scope) > 1 else leaf(scope[0])
     elif len(scope) == 1 or rs.rand() < 0.5:
         k = rs.randint(1, 6)
-        ch = [rand_spn(rs, [int(v) for v in rs.permutation(scope)], depth - 1, kinds, share, pool, clt, var_kind) for _ in range(k)]
+        ch = [rand_spn(rs, [int(v) for v in rs.permutation(scope)], depth - 1, kinds, share, pool, clt, var_kind, same_categories) for _ in range(k)]
         w = rs.dirichlet(np.ones(k))
         node = Sum(scope=[int(v) for v in scope], children=ch, weights=w.astype(np.float32))
     else:
@@ -240,7 +243,7 @@ def rand_spn(rs, scope, depth, kinds=('bern',), share=0.3, pool=None, clt=False,
         perm = [int(v) for v in rs.permutation(scope)]
         cuts = sorted(rs.choice(np.arange(1, len(scope)), k - 1, replace=False).tolist())
         parts = [perm[a:b] for a, b in zip([0] + cuts, cuts + [len(scope)])]
-        ch = [rand_spn(rs, p, depth - 1, kinds, share, pool, clt, var_kind) for p in parts]
+        ch = [rand_spn(rs, p, depth - 1, kinds, share, pool, clt, var_kind, same_categories) for p in parts]
         node = Product(scope=[int(v) for v in rs.permutation(scope)], children=ch)
     pool.setdefault(key, []).append(node)
     return node
